@@ -1,28 +1,29 @@
 #!/bin/bash
-# Catch matrix: every seeded change x every quick check, on a SCRATCH copy of the repository and of the harness
-# (/tmp/mx), so that /repo, /verif/mc and the registered evidence are not touched.
-# usage: matrix.sh <out-file> [seed-dir-glob]
-out=${1:-/tmp/mx/matrix.txt}
-glob=${2:-/verif/seeded/C*/ /verif/seeded/own-*/}
-mkdir -p /tmp/mx/verif
-if [ ! -d /tmp/mx/repo ]; then git -C /repo worktree add -q --detach /tmp/mx/repo HEAD && cp /repo/Cargo.lock /tmp/mx/repo/; fi
-git -C /tmp/mx/repo checkout -q --detach $(git -C /repo rev-parse HEAD) 2>/dev/null
-rsync -a --delete --exclude target /verif/mc/ /tmp/mx/mc/
-sed -i 's#path = "/repo"#path = "/tmp/mx/repo"#' /tmp/mx/mc/Cargo.toml
-printf '[net]\noffline = true\n[build]\ntarget-dir = "/tmp/mx/target"\n' > /tmp/mx/mc/.cargo/config.toml
-cp /verif/known_findings.json /tmp/mx/verif/
-export BPPMC_VERIF_DIR=/tmp/mx/verif BPPMC_REPO_DIR=/tmp/mx/repo CARGO_NET_OFFLINE=true
+# Catch matrix: seeded changes x every quick check, on a SCRATCH copy of the repository and of the harness, so that
+# /repo, /verif/mc and the registered evidence are not touched.
+# usage: matrix.sh <scratch-dir> <out-file> <k> <n>     (handles the seeds whose index mod n == k)
+mx=${1:-/tmp/mx}; out=${2:-$mx/matrix.txt}; k=${3:-0}; n=${4:-1}
+mkdir -p $mx/verif
+if [ ! -d $mx/repo ]; then git -C /repo worktree add -q --detach $mx/repo HEAD && cp /repo/Cargo.lock $mx/repo/; fi
+git -C $mx/repo checkout -q --detach $(git -C /repo rev-parse HEAD) 2>/dev/null
+rsync -a --delete --exclude target /verif/mc/ $mx/mc/
+sed -i "s#path = \"/repo\"#path = \"$mx/repo\"#" $mx/mc/Cargo.toml
+printf "[net]\noffline = true\n[build]\ntarget-dir = \"$mx/target\"\n" > $mx/mc/.cargo/config.toml
+cp /verif/known_findings.json $mx/verif/
+export BPPMC_VERIF_DIR=$mx/verif BPPMC_REPO_DIR=$mx/repo CARGO_NET_OFFLINE=true
 : > $out
-for d in $glob; do
+i=0
+for d in /verif/seeded/C*/ /verif/seeded/own-*/; do
   [ -f $d/patch.diff ] || continue
+  i=$((i+1)); [ $((i % n)) -eq $k ] || continue
   sid=$(basename $d)
-  cd /tmp/mx/repo || exit 2
+  cd $mx/repo || exit 2
   git checkout -q -- .
   git apply $d/patch.diff || { echo "$sid APPLY-FAILED" >> $out; continue; }
-  (cd /tmp/mx/mc && cargo build --release --offline > /tmp/mx/build.log 2>&1) || { echo "$sid BUILD-FAILED" >> $out; git checkout -q -- .; continue; }
+  (cd $mx/mc && cargo build --release --offline > $mx/build.log 2>&1) || { echo "$sid BUILD-FAILED" >> $out; git checkout -q -- .; continue; }
   line="$sid"
   for id in C01 C02 C03 C04 C05 C06 C07 C08 C09 C10 C11 C12 C13 C14 C15 C16 C17 C18 C19 C20; do
-    /tmp/mx/target/release/bppmc check $id --tier quick > /tmp/mx/last.log 2>&1; code=$?
+    $mx/target/release/bppmc check $id --tier quick > $mx/last.log 2>&1; code=$?
     line="$line $id=$code"
   done
   git checkout -q -- .
